@@ -65,11 +65,15 @@ def atomize(test, val):
 
 
 class SymExec:
-    def __init__(self, ctx, func, depth=2, expand=True):
+    def __init__(self, ctx, func, depth=2, expand=True, bind_loops=False, no_expand=()):
+        self.no_expand = no_expand      # qualified names of callees that are not looked through
         self.ctx = ctx
         self.func = func
         self.depth = depth
         self.expand = expand
+        self.bind_loops = bind_loops    # loop variables become ITER[_kN] instead of staying opaque
+        self._nloops = 0
+        self.local_defs = {}            # nested `def` statements seen so far: name -> FunctionDef
 
     # ------------------------------------------------------------------ substitution
     def subst(self, e, env):
@@ -80,6 +84,17 @@ class SymExec:
                 d = dotted(n)
                 if d is not None and d in env:
                     return env[d]
+            if self.bind_loops and isinstance(n, (ast.GeneratorExp, ast.ListComp)) and len(n.generators) == 1 \
+               and not n.generators[0].ifs:
+                # element of a comprehension as an expression of the iterable: _each(elt[target := ITER[_k]])
+                g = n.generators[0]
+                it = self.subst(g.iter, env)
+                p_ = Path({k_: v_ for k_, v_ in env.items()}, ())
+                for x in ast.walk(g.target):
+                    if isinstance(x, ast.Name):
+                        p_.env.pop(x.id, None)
+                self._bind_loop(g.target, it, p_)
+                return ast.Call(func=ast.Name(id='_each', ctx=ast.Load()), args=[self.subst(n.elt, p_.env), it], keywords=[])
             if isinstance(n, (ast.Lambda, ast.GeneratorExp, ast.ListComp, ast.SetComp, ast.DictComp)):
                 # bound variables shadow: substitute only names that are not rebound inside
                 bound = {x.id for x in ast.walk(n) if isinstance(x, ast.Name) and isinstance(x.ctx, ast.Store)}
@@ -104,7 +119,7 @@ class SymExec:
             g = m.resolve_method(self.func.cls.name, fn.attr)
         elif isinstance(fn, ast.Name):
             g = m.funcs.get('%s.%s' % (self.func.module.name, fn.id))
-        if g is None or g.qual == self.func.qual or isinstance(g.node, ast.Lambda):
+        if g is None or g.qual == self.func.qual or isinstance(g.node, ast.Lambda) or g.qual in self.no_expand:
             return None
         if getattr(g, 'is_property', False):
             return None
@@ -115,8 +130,51 @@ class SymExec:
             return None
         return g
 
+    def _local_paths(self, call, env):
+        """a call of a function defined locally (nested def): its body sees the caller's bindings"""
+        d = self.local_defs.get(call.func.id)
+        a_ = d.args
+        if a_.vararg or a_.kwarg or any(isinstance(a, ast.Starred) for a in call.args):
+            return None
+        if any(isinstance(n, (ast.Yield, ast.YieldFrom, ast.For, ast.While, ast.Try, ast.With, ast.Nonlocal, ast.Global))
+               for st in d.body for n in ast.walk(st)):
+            return None
+        params = [x.arg for x in a_.posonlyargs + a_.args]
+        bind = dict(env)
+        got = {}
+        for p_, a in zip(params, call.args):
+            got[p_] = a
+        for k in call.keywords:
+            if k.arg is None:
+                return None
+            got[k.arg] = k.value
+        for p_, dflt in zip(params[len(params) - len(a_.defaults):], a_.defaults):
+            got.setdefault(p_, dflt)
+        if any(p_ not in got for p_ in params):
+            return None
+        for k_ in list(bind):
+            if k_.split('.')[0] in got:
+                del bind[k_]
+        bind.update(got)
+        body = list(d.body)
+        if body and isinstance(body[0], ast.Expr) and isinstance(body[0].value, ast.Constant) and \
+           isinstance(body[0].value.value, str):
+            body = body[1:]
+        sub = SymExec(self.ctx, self.func, self.depth - 1, self.expand, self.bind_loops, self.no_expand)
+        sub.local_defs = dict(self.local_defs)
+        res = []
+        for p in sub.run(stmts=body, env=bind):
+            if p.end == 'raise':
+                continue
+            if p.end != 'return' or p.ret is None or p.stores:
+                return None
+            res.append((p.ret, p.conds))
+        return res or None
+
     def helper_paths(self, call, env):
         """[(value AST, conds)] of a helper call with substituted arguments, or None"""
+        if isinstance(call.func, ast.Name) and call.func.id in self.local_defs and self.depth > 0:
+            return self._local_paths(call, env)
         g = self._callee(call)
         if g is None:
             return None
@@ -132,7 +190,7 @@ class SymExec:
             bind.setdefault(p_.arg, d)
         if any(p_ not in bind for p_ in params):
             return None
-        sub = SymExec(self.ctx, g, self.depth - 1, self.expand)
+        sub = SymExec(self.ctx, g, self.depth - 1, self.expand, self.bind_loops, self.no_expand)
         paths = sub.run(env=dict(bind))
         res = []
         for p in paths:
@@ -213,11 +271,74 @@ class SymExec:
                 p.env.pop(d, None)      # element store: the container is no longer a known expression
                 p.stores.append((d + '[...]', value, st))
 
+    def _summarise_accumulators(self, loop, before, after_paths):
+        """v = init; for x in IT: v += E(x)   ==>   after the loop v is init + sum(_each(E(IT[_k])))
+        on every path (also the one with zero iterations) - the same closed form a
+        sum(E(x) for x in IT) gives.  Only when every path through the body adds the same E once."""
+        names = {n.id for st in loop.body for n in ast.walk(st) if isinstance(n, ast.Name) and isinstance(n.ctx, ast.Store)}
+        entered = [b for b in after_paths if b.conds[:len(before.conds)] == before.conds and
+                   len(b.conds) > len(before.conds) and b.conds[len(before.conds)][0] == 'loop']
+        for v in names:
+            init = before.env.get(v)
+            if init is None or not entered:
+                continue
+            terms = set()
+            ok = True
+            for b in entered:
+                val = b.env.get(v)
+                if isinstance(val, ast.BinOp) and isinstance(val.op, ast.Add) and norm(val.left) == norm(init):
+                    terms.add(norm(val.right))
+                    term = val.right
+                elif val is not None and norm(val) == norm(simplify(ast.BinOp(left=init, op=ast.Add(), right=ast.Constant(value=0)))):
+                    ok = False
+                else:
+                    # `0 + E` was simplified to E
+                    if isinstance(init, ast.Constant) and init.value == 0 and val is not None:
+                        terms.add(norm(val))
+                        term = val
+                    else:
+                        ok = False
+            if not ok or len(terms) != 1:
+                continue
+            if any(isinstance(n, ast.Name) and n.id == v for n in ast.walk(term)):
+                continue
+            total = ast.Call(func=ast.Name(id='sum', ctx=ast.Load()),
+                             args=[ast.Call(func=ast.Name(id='_each', ctx=ast.Load()),
+                                            args=[term, self.subst(loop.iter, before.env)], keywords=[])],
+                             keywords=[])
+            new = simplify(ast.BinOp(left=init, op=ast.Add(), right=total))
+            for b in after_paths:
+                if b.conds[:len(before.conds)] == before.conds and b.end is None:
+                    b.env[v] = new
+
+    def _bind_loop(self, target, it, p):
+        """element of the iterable as an expression: X -> X[_kN]; zip(A, B) -> (A[_kN], B[_kN]);
+        enumerate(X) -> (_kN, X[_kN])"""
+        k = ast.Name(id='_k%d' % self._nloops, ctx=ast.Load())
+        self._nloops += 1
+
+        def elem(x):
+            if isinstance(x, ast.Call) and isinstance(x.func, ast.Name) and x.func.id == 'zip' and not x.keywords:
+                return ast.Tuple(elts=[elem(a) for a in x.args], ctx=ast.Load())
+            if isinstance(x, ast.Call) and isinstance(x.func, ast.Name) and x.func.id == 'enumerate' and \
+               len(x.args) == 1 and not x.keywords:
+                return ast.Tuple(elts=[k, elem(x.args[0])], ctx=ast.Load())
+            if isinstance(x, ast.Attribute) and x.attr == 'flat':
+                return ast.Subscript(value=x.value, slice=k, ctx=ast.Load())
+            return ast.Subscript(value=x, slice=k, ctx=ast.Load())
+        self._assign(target, elem(it), p, None)
+        p.stores = [s_ for s_ in p.stores if s_[2] is not None]
+
     def _stmt(self, st, p):
+        if isinstance(st, ast.FunctionDef):
+            self.local_defs[st.name] = st
+            return [p]
         if isinstance(st, ast.If):
             out = []
             test = self.subst(st.test, p.env)
             for val, blk in ((True, st.body), (False, st.orelse)):
+                if isinstance(test, ast.Constant) and bool(test.value) != val:
+                    continue        # the test is a known constant on this path
                 p2 = p.fork()
                 ats = atomize(test, val)
                 if any(isinstance(b, bool) and (t, not b) in p2.conds for t, b in ats):
@@ -233,19 +354,26 @@ class SymExec:
                         p2.env.pop(n.id, None)
                         for k in [k for k in p2.env if k.startswith(n.id + '.')]:
                             del p2.env[k]
-                p2.conds = p2.conds + (('loop', norm(self.subst(st.iter, p.env))),)
+                it = self.subst(st.iter, p.env)
+                if self.bind_loops:
+                    self._bind_loop(st.target, it, p2)
+                p2.conds = p2.conds + (('loop', norm(it)),)
             else:
                 p2.conds = p2.conds + (('loop', norm(self.subst(st.test, p.env))),)
             body = self._block(st.body, [p2])
             out = []
             for b in body:
                 if b.end in ('continue', 'break'):
-                    continue        # an iteration that contributes nothing
+                    # the iteration ended early: what it did so far stays, the walk goes on after the loop
+                    b.conds = b.conds + (('iteration-ended', b.end),)
+                    b.end = None
                 out.append(b)
             # zero iterations
             p0 = p.fork()
             p0.conds = p0.conds + (('loop-skipped', p2.conds[-1][1]),)
             out.append(p0)
+            if self.bind_loops and isinstance(st, ast.For):
+                self._summarise_accumulators(st, p, out)
             return out
         if isinstance(st, ast.Return):
             if st.value is None:
@@ -292,13 +420,33 @@ class SymExec:
             return out
         if isinstance(st, ast.Expr) and isinstance(st.value, ast.Call):
             out = []
-            for v, p2 in self.eval_expr(st.value, p):
+            c0 = st.value
+            keep = None
+            if isinstance(c0.func, ast.Attribute) and isinstance(c0.func.value, ast.Name):
+                keep = c0.func.value.id      # the receiver of a method call statement stays a name
+            for v, p2 in self.eval_expr(st.value, p if keep is None else _without(p, keep)):
+                if keep is not None:
+                    p2.env = dict(p.env) if p2.env.keys() != p.env.keys() - {keep} else p2.env
+                    if keep in p.env:
+                        p2.env[keep] = p.env[keep]
                 p2.calls.append((v, st))
-                # in-place container methods invalidate what is known about the receiver
-                if isinstance(st.value.func, ast.Attribute) and st.value.func.attr in (
+                fn = st.value.func
+                if isinstance(fn, ast.Attribute) and fn.attr in (
                         'append', 'extend', 'insert', 'update', 'add', 'sort', 'reverse', 'pop', 'remove', 'clear'):
-                    d = dotted(st.value.func.value)
-                    if d is not None:
+                    d = dotted(fn.value)
+                    cur = p2.env.get(d) if d is not None else None
+                    if isinstance(cur, ast.List) and fn.attr in ('append', 'extend') and len(v.args) == 1 and not v.keywords:
+                        # a list literal being filled: keep it as a literal
+                        a0 = v.args[0]
+                        if fn.attr == 'append':
+                            add = [a0]
+                        elif isinstance(a0, (ast.List, ast.Tuple)):
+                            add = list(a0.elts)
+                        else:
+                            add = [ast.Starred(value=a0, ctx=ast.Load())]
+                        p2.env[d] = ast.List(elts=list(cur.elts) + add, ctx=ast.Load())
+                    elif d is not None:
+                        # other in-place container methods invalidate what is known about the receiver
                         p2.env.pop(d, None)
                 out.append(p2)
             return out
@@ -310,6 +458,12 @@ class SymExec:
             p.conds = p.conds + ((norm(self.subst(st.test, p.env)), True),)
             return [p]
         return [p]
+
+
+def _without(p, name):
+    q = p.fork()
+    q.env.pop(name, None)
+    return q
 
 
 def _subst_inner(sx, n, env2):
@@ -362,3 +516,63 @@ def loop_transformer(ctx, func, loop, depth=2):
     body_paths = sx.run(stmts=loop.body, env=env)
     post_paths = sx.run(stmts=body[k + 1:], env=env)
     return pre, carried, body_paths, post_paths
+
+
+def _is_each(e):
+    return isinstance(e, ast.Call) and isinstance(e.func, ast.Name) and e.func.id == '_each' and len(e.args) == 2
+
+
+def line_exprs(path, with_iter=False):
+    """expressions that become lines / rows on this path: X.append(E), the elements of X.extend(...),
+    the entries of the list literal that is joined, the element E of a joined / extended
+    comprehension (then the third item is the iterable it ranges over), a returned format.
+    returns [(expr, stmt or None)] or, with_iter, [(expr, stmt or None, iterable AST or None)]"""
+    out = []
+
+    def add(e, st):
+        if isinstance(e, ast.Starred):
+            e = e.value
+        if _is_each(e):
+            out.append((e.args[0], st, e.args[1]))
+        else:
+            out.append((e, st, None))
+    for c, st in path.calls:
+        if isinstance(c.func, ast.Attribute) and c.func.attr in ('append', 'extend') and len(c.args) == 1:
+            a0 = c.args[0]
+            if c.func.attr == 'extend' and isinstance(a0, (ast.List, ast.Tuple)):
+                for x in a0.elts:
+                    add(x, st)
+            else:
+                add(a0, st)
+        elif isinstance(c.func, ast.Attribute) and c.func.attr == 'insert' and len(c.args) == 2:
+            add(c.args[1], st)
+    if path.ret is not None:
+        joins = [n for n in ast.walk(path.ret) if isinstance(n, ast.Call) and isinstance(n.func, ast.Attribute)
+                 and n.func.attr == 'join' and len(n.args) == 1]
+        have = {norm(e) for e, st, it in out}
+        for n in joins:
+            a0 = n.args[0]
+            if isinstance(a0, ast.List):
+                # entries of the list literal the writer started from (r = [first, second])
+                for x in a0.elts:
+                    x = x.value if isinstance(x, ast.Starred) else x
+                    key = norm(x.args[0]) if _is_each(x) else norm(x)
+                    if key not in have:
+                        add(x, None)
+            elif _is_each(a0):
+                add(a0, None)
+        if not joins:
+            add(path.ret, None)
+    if with_iter:
+        return out
+    return [(e, st) for e, st, it in out]
+
+
+def canon_k(text):
+    """renumber the loop-element indices _kN in order of appearance (texts from different walks compare)"""
+    import re
+    seen = {}
+
+    def rep(mo):
+        return seen.setdefault(mo.group(0), '_k%d' % len(seen))
+    return re.sub(r'_k\d+', rep, text)
